@@ -65,9 +65,9 @@ META = {
         "not_covered": ["threads / schedules (Kani does not model concurrency)", "Cache", "histories longer than 2", "a recursive + memoized parser reused (out of memory at 12 GB in three sizes)"],
     },
     "C14": {
-        "bounds": {"quick": "arbitrary bytes N=3 (keyword: 4) for int(10), digits(16), ascii::ident, keyword, whitespace, inline_whitespace, padded; &str of <= 3 chars from the 7 terminator characters + 'a' for newline; &str vs &[u8] on 2 ASCII bytes",
+        "bounds": {"quick": "arbitrary bytes N=3 (keyword: 4) for int(10), digits(16), ascii::ident, keyword, whitespace, inline_whitespace, padded; &str of <= 3 chars from the 7 terminator characters + 'a' for newline; &str vs &[u8] on 2 ASCII bytes; ascii::ident on &str with non-ASCII look-alikes; unicode::ident on &str whose first character is ANY scalar value",
                    "thorough": "adds int(r) for r in {2, 8, 16, 36}"},
-        "not_covered": ["regex (regex-automata is not encodable)", "unicode::ident / unicode::keyword (XID tables)", "strings longer than the bound"],
+        "not_covered": ["regex (regex-automata is not encodable)", "unicode::keyword; the XID tables themselves (unicode::ident is decided against chumsky's own per-character classification)", "strings longer than the bound"],
     },
     "C15": {
         "bounds": {"quick": "N=3..4; length-prefixed (collecting and unit paths), static cap under configure, delimiter echo by value and by reference in parse and check mode, nearest provider (nested / repeated / abandoned alternative), try_configure, map_ctx", "thorough": "same"},
